@@ -284,6 +284,15 @@ Proof.
     intros H. apply np_contract_len in H. lia.
 Qed.
 
+Theorem validator_dot_1d_spec_proof :
+  forall la lb : Z,
+    (la = lb -> v_dot_1d_check la lb = Ok VNone) /\
+    (la <> lb -> v_dot_1d_check la lb = Raise ValueError).
+Proof.
+  intros la lb. unfold v_dot_1d_check, sv_dot_1d_shape_check. cbn.
+  destruct (Z.eqb_spec la lb); cbn; split; congruence.
+Qed.
+
 (* the zero-size shortcut looks at (-1, N2) and (N2, -1): it fires iff the CONTRACTED extent is 0
    and says nothing about the free extents of either operand *)
 Theorem tensordot_shortcut_spec_proof :
